@@ -11,7 +11,7 @@ from vlib.runner import Sub, Violation, frame_sig
 PROPERTY = 'C09'
 RULE = (
     'Histories of 1..12 edits on one sheet (initial text from a pool of valid sheets): insertRule(text | object, index) '
-    'for all ten rule kinds and all indexes 0..len+1, ordered add, deleteRule(index | object), sheet.cssText = (valid, '
+    'for all ten rule kinds and all indexes 0..len+1, ordered add, deleteRule(index | object), del / pop / remove on the cssRules lists of the sheet and of nested rules, sheet.cssText = (valid, '
     'invalid, mis-ordered texts), rule.cssText =, sheet.encoding =, namespaces[p] = uri, del namespaces[p], and the same '
     'insert / add / delete on the rule lists of @media and @page rules; insertRule(rule list) / cssRules.extend(rule list) with lists '
     'of allowed and disallowed kinds parsed from another sheet; setProperty(Property object taken from another declaration block); '
@@ -119,6 +119,8 @@ op = st.one_of(
     st.tuples(st.just('reinsert'), st.integers(0, 6), st.booleans(), st.integers(0, 8)),
     st.tuples(st.just('styleSet'), st.integers(0, 6), st.integers(0, 3)),
     st.tuples(st.just('mediaSet'), st.integers(0, 4), st.booleans()),
+    # deletion through the Python list interface of cssRules (sheet: container -1, else a nested container)
+    st.tuples(st.just('listDelete'), st.integers(-1, 3), st.integers(0, 8), st.sampled_from(['del', 'pop', 'remove', 'pop-last'])),
 )
 strategy = st.fixed_dictionaries({
     'init': st.integers(0, len(INIT) - 1), 'raising': st.booleans(), 'ops': st.lists(op, min_size=1, max_size=12),
@@ -306,6 +308,26 @@ def check(case, ctx):
                         sheet.deleteRule(sheet.cssRules[o[1] % sheet.cssRules.length])
                     else:
                         sheet.deleteRule(o[1])
+                elif kind == 'listDelete':
+                    cs = containers(sheet)
+                    c = sheet if o[1] < 0 or not cs else cs[o[1] % len(cs)]
+                    lst = c.cssRules
+                    if not len(lst):
+                        continue
+                    i = o[2] % len(lst)
+                    try:
+                        if o[3] == 'del':
+                            del lst[i]
+                        elif o[3] == 'pop':
+                            lst.pop(i)
+                        elif o[3] == 'pop-last':
+                            lst.pop()
+                        else:
+                            lst.remove(lst[i])
+                    except NotImplementedError:
+                        # a list that does not offer the operation
+                        ctx.event('listDelete:not-implemented')
+                        continue
                 elif kind == 'sheetText':
                     sheet.cssText = SHEET_TEXTS[o[1]]
                 elif kind == 'ruleText':
@@ -362,7 +384,7 @@ def check(case, ctx):
             ctx.event('op:' + kind + (':rejected' if rejected else ''))
             now = list(walk(sheet.cssRules))
             gone = [r for r in before_rules if not any(r is x for x in now)]
-            how = {'delete': 'deleteRule', 'nDelete': 'deleteRule', 'sheetText': 'sheet.cssText=', 'ruleText': 'rule.cssText=',
+            how = {'delete': 'deleteRule', 'nDelete': 'deleteRule', 'listDelete': 'del/pop/remove on cssRules', 'sheetText': 'sheet.cssText=', 'ruleText': 'rule.cssText=',
                    'nsDel': 'del namespaces[]'}.get(kind, kind)
             removed.extend((r, how) for r in gone)
             now_parts = [getattr(r, attr) for r in now for attr in ('style', 'selectorList', 'media', 'variables') if getattr(r, attr, None) is not None]
